@@ -60,6 +60,7 @@ def _cases(tier, seed):
     for N, R in [([3], [1, 1]), ([2, 3], [1, 2, 1]), ([2, 1, 3], [1, 2, 2, 1])]:
         for op in ('add', 'sub', 'mul'):
             cs.append({'scen': 'tt_binop', 's': {'op': op, 'N1': N, 'R1': R, 'N2': N, 'R2': R, 'dtype': 'float64', 'alias': True}})
+            cs.append({'scen': 'tt_binop', 's': {'op': op, 'N1': N, 'R1': R, 'N2': N, 'R2': R, 'dtype': 'float64', 'alias': 'shared_list'}})
     # ---- broadcasting alignments (second operand broadcasts into the first)
     bc = [([2, 3, 4], [3, 4]), ([2, 3, 4], [4]), ([2, 3, 4], [1, 4]), ([2, 3, 4], [3, 1]), ([2, 3, 4], [1, 3, 1]),
           ([2, 3, 4], [1, 1, 1]), ([2, 3, 4], [2, 1, 4]), ([2, 3, 4], [1]), ([2, 3], [2, 1]), ([2, 3], [1, 3]),
